@@ -74,6 +74,7 @@ class Program:
     def __init__(self):
         self.types = {"number": "i", "unsigned": "u", "float": "f", "symbol": "s"}
         self.records = {}       # type name -> list of field type names
+        self.adt_branches = {}  # branch name -> (ADT type name, list of field type names)
         self.rels = {}
         self.inputs = []
         self.outputs = []
@@ -249,9 +250,29 @@ class _Parser:
                     p.records[name] = fields
                 else:
                     base = self.eat("id")[1]
-                    if self.peek("op", "|") or self.peek("op", "{"):
-                        raise RefUnsupported("union/ADT types")
-                    p.types[name] = base
+                    if self.peek("op", "{"):
+                        # algebraic data type: Branch {f:T, ...} | Branch {...} ...  Reference semantics: constructors are
+                        # injective and pairwise disjoint -- a branch value is the tuple (branch name, arguments).
+                        while True:
+                            self.eat("op", "{")
+                            fields = []
+                            while not self.peek("op", "}"):
+                                self.eat("id")
+                                self.eat("op", ":")
+                                fields.append(self.eat("id")[1])
+                                self.try_op(",")
+                            self.eat("op", "}")
+                            if base in p.adt_branches:
+                                raise DlError("ADT branch %s declared twice" % base)
+                            p.adt_branches[base] = (name, fields)
+                            if not self.try_op("|"):
+                                break
+                            base = self.eat("id")[1]
+                        p.types[name] = "r"
+                    elif self.peek("op", "|"):
+                        raise RefUnsupported("union types")
+                    else:
+                        p.types[name] = base
         elif d == ".functor":
             name = self.eat("id")[1]
             self.eat("op", "(")
@@ -451,7 +472,21 @@ class _Parser:
             self.eat("op", "]")
             return T("rec", args=args)
         if k == "op" and v == "$":
-            raise RefUnsupported("counter / ADT constructor")
+            if self.peek("id") and self.t[self.i + 1] == ("op", "("):
+                bname = self.eat("id")[1]
+                self.eat("op", "(")
+                args = []
+                while not self.peek("op", ")"):
+                    args.append(self.term())
+                    if not self.try_op(","):
+                        break
+                self.eat("op", ")")
+                # desugared to a tagged tuple: constructors injective and pairwise disjoint.  The tag depends only on the
+                # branch name (independent of declaration order and of souffle's branch numbering).
+                import zlib
+                tag = 0x40000000 | (zlib.crc32(bname.encode()) & 0x3FFFFFFF)
+                return T("rec", args=[T("num", val=tag, ty="i")] + args, adt=bname)
+            raise RefUnsupported("counter")
         if k == "id":
             if v == "_":
                 self.anon += 1
@@ -847,7 +882,7 @@ class Reference:
                         if a.k == "var" and a.name not in env2:
                             env2[a.name] = v
                             continue
-                        if a.k == "rec" and not self._ground(a, env2):
+                        if a.k == "rec":
                             q = self.match(a, v, env2)
                             if q is False:
                                 ok = False
